@@ -32,6 +32,18 @@ def _consts(src, rel, names):
     return out
 
 
+def _connless_max(src, rel, consts):
+    """largest payload `write_connless_packet` accepts: the expression `payload.len()` is compared with"""
+    body = exlib.fn_body(src, "write_connless_packet", 0, rel)
+    m = re.search(r"payload\.len\(\)\s*>\s*([^{]+)\{", body)
+    if not m:
+        raise exlib.ExtractError("%s: `payload.len() > <limit>` test not found in write_connless_packet" % rel)
+    try:
+        return int(eval(m.group(1), {"__builtins__": {}}, dict(consts)))
+    except Exception as ex:
+        raise exlib.ExtractError("%s: cannot evaluate connless limit %s: %r" % (rel, m.group(1).strip(), ex))
+
+
 def _token(src, name, rel):
     m = re.search(r"\bconst\s+%s\s*:\s*Token\s*=\s*Token\(\[([^\]]*)\]\)" % name, src)
     if not m:
@@ -84,12 +96,14 @@ def run(repo):
     s += "namespace Tw.Gen.Conn.P6\n"
     for n, v in _consts(p6, rel6, n6):
         s += "/-- `%s` of %s -/\ndef %s : Nat := %d\n" % (n, rel6, n, v)
+    s += "/-- largest payload `write_connless_packet` accepts (%s) -/\ndef connlessMax : Nat := %d\n" % (rel6, _connless_max(p6, rel6, _consts(p6, rel6, n6)))
     s += "def TOKEN_NONE : List Nat := %s\n" % exlib.lean_nat_list(_token(p6, "TOKEN_NONE", rel6))
     s += "def TOKEN_RESERVED : List Nat := %s\n" % exlib.lean_nat_list(_token(p6, "TOKEN_RESERVED", rel6))
     s += "end Tw.Gen.Conn.P6\n\n"
     s += "namespace Tw.Gen.Conn.P7\n"
     for n, v in _consts(p7, rel7, n7):
         s += "/-- `%s` of %s -/\ndef %s : Nat := %d\n" % (n, rel7, n, v)
+    s += "/-- largest payload `write_connless_packet` accepts (%s) -/\ndef connlessMax : Nat := %d\n" % (rel7, _connless_max(p7, rel7, _consts(p7, rel7, n7)))
     s += "def TOKEN_NONE : List Nat := %s\n" % exlib.lean_nat_list(_token(p7, "TOKEN_NONE", rel7))
     s += "end Tw.Gen.Conn.P7\n\n"
     s += _conn(repo, "net/src/connection.rs", "Tw.Gen.Conn.C6")
